@@ -202,6 +202,7 @@ public:
 extern "C" std::uint64_t sim_machine_time_stamp(void);
 extern "C" void sim_probe(const char* name);
 extern "C" void sim_tso_region(const void* p, std::size_t n, int on);
+extern "C" void sim_allotment(int soft_limit, int mandatory, int total_demand, int n, const int* level, const int* minw, const int* maxw, const int* allot);
 // verification hook: reach counter for rare branches ("this window was hit")
 #define ONETBB_VERIF_PROBE(name) sim_probe(name)
 #else
